@@ -341,3 +341,80 @@ Definition fold (c : circuit) (items : region) : res :=
       end
     end
   end.
+
+(* ---- the repaired straighten (fixes/D6.patch), selected by `fx` --------------------------------------------- *)
+(* With fx = true the old cycles of the window [min_cycle, max_min_cycle) that the moves emptied are popped
+   together with the new cycles nothing moved into, the upper bounds of the region are lowered by the number
+   of popped cycles below them, and net_new_cycles counts them.  With fx = false this is `straighten_r`. *)
+Definition straighten_rx (fx : bool) (c : circuit) (r0 : region) : circuit * sres :=
+  match r0 with
+  | [] => (c, SOk [] 0 [])
+  | _ =>
+    match check_region_r c r0 with
+    | CrBad => (c, SErr ValueError)
+    | CrFuel => (c, SErr InternalError)
+    | CrOk =>
+      match downsize_region c r0 with
+      | RrErr e => (c, SErr e)
+      | RrOk [] => (c, SErr ValueError)
+      | RrOk r1 =>
+        let shadow_length := r_max_min_cycle r1 - r_min_cycle r1 in
+        let shadow_start := r_min_cycle r1 in
+        let c1 := fold_left (fun c _ => insert_cycle c shadow_start) (seq 0 shadow_length) c in
+        let r2 := shift_right r1 shadow_length in
+        let smap := map (fun p => (fst p, Z.min (Z.of_nat (r_min_cycle r2) - 1)
+                                                (Z.of_nat (snd (snd p)) - Z.of_nat shadow_length))%Z) r2 in
+        let st := fold_left (straighten_step r2) (seq 0 shadow_length) (mkS c1 (r_keys r2) smap []) in
+        let idle := sort_nat (s_idle st) in
+        let vacated := filter (fun i => match cycle_at (s_c st) i with [] => true | _ => false end)
+                              (seq (r_min_cycle r2) (r_max_min_cycle r2 - r_min_cycle r2)) in
+        let topop := if fx then idle ++ vacated else idle in
+        match seq_ops (fun c p => pop_cycle c (snd p - fst p)) (s_c st) (combine (seq 0 (length topop)) topop) with
+        | (c2, Err e) => (c2, SErr e)
+        | (c2, _) =>
+          match shift_left r2 (length idle) with
+          | None => (c2, SErr ValueError)
+          | Some r3 =>
+            let vac := map (fun i => i - length idle) vacated in
+            let r4 := if fx
+                      then map (fun p => (fst p, (r_min_cycle r3,
+                                                  snd (snd p) - length (filter (fun i => Nat.ltb i (snd (snd p))) vac)))) r3
+                      else map (fun p => (fst p, (r_min_cycle r3, snd (snd p)))) r3 in
+            if negb (intervals_ok r4) then (c2, SErr ValueError)
+            else
+              let shadow :=
+                flat_map (fun q => match sm_get (s_map st) q with
+                                   | Some z => if Z.leb (Z.of_nat shadow_start) z
+                                               then [(q, (shadow_start, Z.to_nat z))] else []
+                                   | None => [] end) (s_sq st) in
+              (c2, SOk r4 (if fx then shadow_length - length idle - length vacated else shadow_length - length idle) shadow)
+          end
+        end
+      end
+    end
+  end.
+
+Definition straighten_x (fx : bool) (c : circuit) (items : region) : circuit * sres :=
+  let r := mk_region items in
+  if negb (intervals_ok r) then (c, SErr ValueError) else straighten_rx fx c r.
+
+Definition fold_x (fx : bool) (c : circuit) (items : region) : res :=
+  let r := mk_region items in
+  if negb (intervals_ok r) then (c, Err ValueError)
+  else match r with
+  | [] => (c, Err ValueError)
+  | _ =>
+    match straighten_rx fx c r with
+    | (c1, SErr e) => (c1, Err e)
+    | (c1, SOk r1 _ _) =>
+      match batch_pop c1 (map (fun p => (Z.of_nat (fst p), Z.of_nat (snd p))) (r_points r1)) with
+      | (c2, OkC sub) =>
+        match insert_circuit c2 (Z.of_nat (r_min_cycle r1)) sub (sort_nat (r_keys r1)) true with
+        | (c3, Err e) => (c3, Err e)
+        | (c3, _) => (c3, OkN (Z.of_nat (r_min_cycle r1)))
+        end
+      | (c2, Err e) => (c2, Err e)
+      | (c2, _) => (c2, Err InternalError)
+      end
+    end
+  end.
